@@ -73,7 +73,7 @@ def _check_calls(o, spec):
             if not isinstance(e, parlib.TaskError) or e.args != ("task %d of call %d failed" % (sp[2], k),):
                 probs.append("call %d: expected TaskError of task %d, got %r (result %r)" % (k, sp[2], e, rec["result"]))
         elif kind == "iterfail":
-            if not isinstance(e, parlib.IterError):
+            if not isinstance(e, (parlib.IterError, parlib.IterBaseError)):
                 probs.append("call %d: expected the iterator's IterError, got %r (result %r)" % (k, e, rec["result"]))
         elif kind == "timeout":
             if e is None or not type(e).__name__.endswith("TimeoutError"):
@@ -123,7 +123,7 @@ def ob_fail(f: int, n1: int, pos0: int, pos1: int, pk: int) -> bool:
 
 def ob_iterfail(j: int, pos0: int, pk: int) -> bool:
     """
-    pre: -1 <= j <= 6
+    pre: -2 <= j <= 6
     pre: -1 <= pos0 <= 600
     pre: 0 <= pk <= 1
     post: _
@@ -131,11 +131,12 @@ def ob_iterfail(j: int, pos0: int, pk: int) -> bool:
     H.enter()
     steps = _BASE["steps"]
     H.assume(pos0 <= steps)
-    jj = H.select(j, -1, 6)                      # -1: the iterable's __iter__ itself raises
+    jj = H.select(j, -2, 6)                      # -1: the iterable's __iter__ itself raises; -2: with a BaseException
     p0 = H.select_bisect(pos0, -1, steps)
     pkv = H.select(pk, 0, 1)
     with H.native():
-        calls = [dict(n_tasks=8, iter_fail_at=jj) if jj >= 0 else dict(n_tasks=8, iter_raises=True), dict(n_tasks=3)]
+        calls = [dict(n_tasks=8, iter_fail_at=jj) if jj >= 0 else dict(n_tasks=8, iter_raises=True if jj == -1 else "base"),
+                 dict(n_tasks=3)]
         pre = [(p0, 0)] if p0 >= 0 else []
         o = parlib.run(_cfg(H.PARAMS, calls), dict(preempt=pre, picks=[pkv]))
         probs = _check_calls(o, [("iterfail", 8, jj), ("ok", 3)])
